@@ -558,7 +558,8 @@ func main() {
 		for _, sc := range cloneScripts {
 			sc := sc
 			kk := k
-			if kk == 3 && (sc.name == "mutable-input-array" || sc.name == "closure-and-function-constants") {
+			if kk == 3 && (sc.name == "mutable-input-array" || sc.name == "closure-and-function-constants" || sc.rounds > 1 || sc.template != nil ||
+				sc.name == "format-builtin" || sc.name == "runtime-error-in-module" || sc.name == "empty-input-array-with-capacity") {
 				kk = 2 // three instruction-level interleaved VMs of the longer scripts exceed the budget; stated in evidence
 				r.Note("part 1: %s explored with 2 clones in the thorough tier (3 for the others)", sc.name)
 			}
